@@ -1,12 +1,12 @@
 #!/usr/bin/env python3
 """prints the prompt for an isolated mutation-seeding agent: only the property's text and a scratch worktree"""
 import json, sys
-pid = sys.argv[1]; n = sys.argv[2] if len(sys.argv) > 2 else "3"
+pid = sys.argv[1]; n = sys.argv[2] if len(sys.argv) > 2 else "3"; base = sys.argv[3] if len(sys.argv) > 3 else "/tmp/seed"
 for l in open('/verif/properties.jsonl'):
     p = json.loads(l)
     if p['id'] == pid: break
 lc = pid.lower()
-print(f"""You are testing how well a Go code base's behaviour is pinned down. You have your own scratch git worktree of the repository logrange/logrange (a streaming log database server in Go) at /tmp/seed/{lc} — work ONLY inside /tmp/seed/{lc} and /tmp/seed/{lc}-out (create it). Do not read or touch /verif or /repo (off limits for this task) and do not use the network (there is none). Go environment for every shell call: `export GOFLAGS=-mod=mod GOPROXY=off GOSUMDB=off GOTOOLCHAIN=local`. The repository's tests run with `cd /tmp/seed/{lc} && go test -mod=mod -vet=off -count=1 ./...` (all pass now). Dependencies' sources are in /root/go/pkg/mod (read-only).
+print(f"""You are testing how well a Go code base's behaviour is pinned down. You have your own scratch git worktree of the repository logrange/logrange (a streaming log database server in Go) at {base}/{lc} — work ONLY inside {base}/{lc} and {base}/{lc}-out (create it). Do not read or touch /verif or /repo (off limits for this task) and do not use the network (there is none). Go environment for every shell call: `export GOFLAGS=-mod=mod GOPROXY=off GOSUMDB=off GOTOOLCHAIN=local`. The repository's tests run with `cd {base}/{lc} && go test -mod=mod -vet=off -count=1 ./...` (all pass now). Dependencies' sources are in /root/go/pkg/mod (read-only).
 
 This semantic property of the system should hold:
 
@@ -15,8 +15,8 @@ It is quantified over: {p['quantifier']['text']}. Relevant code: {', '.join(p['a
 
 YOUR TASK: produce {n} different, realistic changes to the code (like bugs a developer could plausibly introduce in a refactoring or "optimisation"), each of which BREAKS this property while the repository STILL COMPILES and the EXISTING TEST SUITE STILL PASSES. Prefer changes that need something specific to manifest — a particular multi-step sequence of operations, an unusual or boundary input, a particular interleaving or timing, a crash or restart at a particular point, or two cooperating sites that each look fine alone — NOT ones that any ordinary single use would expose at once. Make the changes different in kind and in the clause of the property they break, and each small (a few lines).
 
-For each change i create /tmp/seed/{lc}-out/<i>/ with:
+For each change i create {base}/{lc}-out/<i>/ with:
 - patch.diff — `git diff` of the change against the worktree's HEAD (apply with `git apply`), touching only non-test source files of the repository;
-- a demonstration that FAILS with the change and PASSES without it: either a Go test file (say which package directory it must be copied into and the `go test -run` command) or a small standalone program (a directory with main.go and a go.mod `module demo; go 1.12; require github.com/logrange/logrange v0.0.0; replace github.com/logrange/logrange => /tmp/seed/{lc}` plus `cp /tmp/seed/{lc}/go.sum .`; say how to run it). It may start the real server in-process: `cfg := server.GetDefaultConfig(); cfg.BaseDir = <temp dir>; cfg.PublicApiRpc.ListenAddr = "127.0.0.1:<free port>"; cfg.JrnlCtrlConfig.WriteFlushMs = 5; go server.Start(ctx, cfg)` (cancel ctx = graceful shutdown; Start again on the same BaseDir = restart), client `rpc.NewClient(transport.Config{{ListenAddr: addr}})` (packages api/rpc and github.com/logrange/range/pkg/transport) giving Write / Query / Execute (admin LQL statements; operation errors come back in the result's Err field) / EnsurePipe; readers only see flushed records (sleep a few flush periods after a Write); quiet logs with `log4g.SetLogLevel("", log4g.FATAL)` (github.com/jrivets/log4g). Or call the packages directly;
+- a demonstration that FAILS with the change and PASSES without it: either a Go test file (say which package directory it must be copied into and the `go test -run` command) or a small standalone program (a directory with main.go and a go.mod `module demo; go 1.12; require github.com/logrange/logrange v0.0.0; replace github.com/logrange/logrange => {base}/{lc}` plus `cp {base}/{lc}/go.sum .`; say how to run it). It may start the real server in-process: `cfg := server.GetDefaultConfig(); cfg.BaseDir = <temp dir>; cfg.PublicApiRpc.ListenAddr = "127.0.0.1:<free port>"; cfg.JrnlCtrlConfig.WriteFlushMs = 5; go server.Start(ctx, cfg)` (cancel ctx = graceful shutdown; Start again on the same BaseDir = restart), client `rpc.NewClient(transport.Config{{ListenAddr: addr}})` (packages api/rpc and github.com/logrange/range/pkg/transport) giving Write / Query / Execute (admin LQL statements; operation errors come back in the result's Err field) / EnsurePipe; readers only see flushed records (sleep a few flush periods after a Write); quiet logs with `log4g.SetLogLevel("", log4g.FATAL)` (github.com/jrivets/log4g). Or call the packages directly;
 - README.md — what the change is, which clause of the property it breaks, what it needs in order to manifest, and the exact commands you ran with their observed results (demo fails with the patch, passes without; `go build ./...` and the full `go test` pass with the patch).
 Verify all of that yourself before reporting: apply patch → build → full test suite passes → demo fails; `git checkout -- .` → demo passes. Leave the worktree clean (no patch applied) at the end. Final message: a short table of the changes (files touched, clause broken, what they need to manifest).""")
